@@ -73,6 +73,9 @@ func buildWorld(base string) world {
 	add(false, Case{Method: "POST", Template: "/forms", Consumes: "urlencoded", Produces: "json", Params: form("", "x y"), Resp: respOf(422, "json", "D-url2")})
 	add(false, Case{Method: "POST", Template: "/forms", Consumes: "multipart", Produces: "json", Auth: true, Params: form("signed"), Resp: respOf(200, "json", "D-mp-auth")})
 	add(false, Case{Method: "POST", Template: "/forms", Consumes: "urlencoded", Produces: "json", Auth: true, Params: form("signed url", "z"), Resp: respOf(200, "json", "D-url-auth")})
+	// D again through consumes lists that also name a media type with a producer
+	add(true, Case{Method: "POST", Template: "/forms", Consumes: "urlencoded", ConsumesList: []string{"urlencoded", "json"}, Produces: "json", Params: form("listed url", "l"), Resp: respOf(200, "json", "D-list-url")})
+	add(false, Case{Method: "POST", Template: "/forms", Consumes: "multipart", ConsumesList: []string{"", "multipart", "json"}, Produces: "json", Params: form("listed mp"), Resp: respOf(200, "json", "D-list-mp")})
 	// E: GET /things - no body; three response media types
 	for i, m := range []string{"json", "text", "bytes"} {
 		add(i < 2, Case{Method: "GET", Template: "/things", Consumes: "json", Produces: m,
